@@ -58,7 +58,7 @@ def run(chk, replay=None):
     with ThreadPoolExecutor(max_workers=4) as ex:
         f_main = ex.submit(tlc.run, "ExprOps_MC", cfg, workers=3, fast_start=False, timeout=1500)
         # vacuity: every action must have been taken (coverage run on the smaller graph configuration)
-        f_cov = ex.submit(tlc.run, "ExprOps_MC", P.pool_cfg(init="PoolGraphInit", max_ops=1), workers=1, coverage=True, timeout=600)
+        f_cov = ex.submit(tlc.run, "ExprOps_MC", P.pool_cfg(init="PoolGraphInit", max_ops=1, full_quantification=(tier == "thorough")), workers=1, coverage=True, timeout=600)
         # sensitivity: the named deviations must break the laws in the model
         f_dev = {dev: ex.submit(tlc.run, "ExprOps_MC", P.pool_cfg(init="PoolGraphInit", max_ops=1, dev=dev), workers=1, timeout=600)
                  for dev in ("DevBoundIndexSubs", "DevDropUnusedIndex")}
@@ -85,12 +85,12 @@ def run(chk, replay=None):
     if replay and replay.get("case"):
         print("replay case:", replay["case"])
     t0 = time.time()
-    nsim, depth = (1500, 9) if tier == "thorough" else (260, 8)
+    nsim, depth = (1100, 9) if tier == "thorough" else (260, 8)
     sim_small = P.pool_cfg(init="PoolInit", ctxs="PoolCtxs", max_ops=6, max_depth=6, nest_anytime=True, check=False)
     behs = P.simulate_parallel("ExprOps_MC", sim_small, num=nsim, depth=depth, seed=chk.seed + 1, jobs=5)
     sim_big = P.pool_cfg(init="F2", ctxs="PoolCtxs", max_ops=6, max_depth=6, nest_anytime=True, leafs=("x", "y"),
                          idxs=("i", "j", "k"), vals=("1", "3"), poolset="PoolsFull", max_idx=2, check=False)
-    nbig = 500 if tier == "thorough" else 60
+    nbig = 400 if tier == "thorough" else 60
     behs_big = P.simulate_parallel("ExprOps_MC", sim_big, num=nbig, depth=depth, seed=chk.seed + 2, jobs=5)
     for b in behs + behs_big:
         rep.replay(b)
